@@ -314,7 +314,9 @@ Fixpoint is_assignable (t ot : objdef) : bool :=
 Definition instance_of (t : objdef) (o : obj) : bool := is_assignable t (o_type o).
 
 (* ---------------------------------------------------------------------------------------------- *)
-(* patterns of the schema: TypeNamePattern \A[A-Z][\w]*(?:::[A-Z][\w]*)*\z, MemberNamePattern \A[a-z_]\w*\z *)
+(* patterns of the schema: TypeNamePattern = an upper case letter, word characters, then any number of
+   `::`-separated further such segments; MemberNamePattern = a lower case letter or `_`, then word characters
+   (types/objecttype.go:58-70; the regexps are not quoted here because they contain the comment closer) *)
 
 Definition is_upper (c : N) : bool := ((65 <=? c) && (c <=? 90))%N.
 Definition is_lower (c : N) : bool := ((97 <=? c) && (c <=? 122))%N.
@@ -946,3 +948,48 @@ Fixpoint eq_at (o1 o2 : obj) (attrs : list attr) (idxs : list nat) : result bool
 Definition obj_eqb (o1 o2 : obj) : result bool :=
   if negb (def_eqb (o_type o1) (o_type o2)) then Ok false
   else eq_at o1 o2 (ai_attrs (d_info (o_type o1))) (ai_eq (d_info (o_type o1))).
+
+(* ---------------------------------------------------------------------------------------------- *)
+(* Predicates used by the statements of C17 (Properties/C17.v) and evaluated by the correspondence
+   run on every accepted definition (Corr/CorrC17.v).  Boolean, so that they compute. *)
+
+Fixpoint nodup_str (l : list str) : bool :=
+  match l with [] => true | x :: r => negb (mem_str x r) && nodup_str r end.
+
+(* the first `req` attributes are required (no value, not given_or_derived), all others optional *)
+Fixpoint req_prefix (l : list attr) (req : nat) : bool :=
+  match l, req with
+  | [], O => true
+  | [], S _ => false
+  | a :: r, O => is_opt_attr a && req_prefix r O
+  | a :: r, S n => negb (is_opt_attr a) && req_prefix r n
+  end.
+
+(* attribute.go:64-72: a given_or_derived attribute has the implicit value undef *)
+Definition attr_wf (a : attr) : bool :=
+  negb (kind_eqb (a_kind a) KGivenOrDerived) || opt_value_eqb (a_value a) (Some VUndef).
+
+(* the layout invariant of attributesInfo that the constructors, Get, InitHash and Equals rely on *)
+Definition info_wf (i : ainfo) : bool :=
+  nodup_str (map a_name (ai_attrs i)) && req_prefix (ai_attrs i) (ai_req i)
+  && forallb attr_wf (ai_attrs i)
+  && forallb (fun k => Nat.ltb k (length (ai_attrs i))) (ai_eq i).
+
+(* The input class of the open finding `serialization-partial`: a definition (or an ancestor whose
+   layout it inherits: none, the serialization list is per type) whose `serialization` list is not a
+   duplicate-free enumeration of all constructor attributes.  ser_complete = outside that class. *)
+Definition ser_complete (d : objdef) : bool :=
+  match d_serialization d with
+  | None => true
+  | Some names =>
+    nodup_str names &&
+    forallb (fun a => negb (is_ctor_kind (a_kind a)) || mem_str (a_name a) names) (collect_attributes d)
+  end.
+
+(* the type itself followed by its ancestors *)
+Fixpoint ancestors (d : objdef) : list objdef :=
+  match d with
+  | mkDef _ p _ _ _ _ _ => d :: (match p with Some q => ancestors q | None => [] end)
+  end.
+
+Definition parent_of (d : objdef) : option objdef := d_parent d.
